@@ -225,7 +225,7 @@ fn big_header_case(seed: u64, st: &mut Stats) {
     let line = "clirt big-header";
     if c1 != 0 { st.violation("C11", &format!("compress with a 1.6 MB metadata value fails: {}", l1.lines().last().unwrap_or("")), line); return; }
     let (c2, l2) = s.bita(&["info", "big.cba"], None, &[]);
-    if c2 != 0 || !l2.contains("Chunk hash length: 32 bytes") || !l2.contains("blob(1600000)") { st.violation("C11", &format!("bita info on an archive with a header over 1 MiB: exit {} {}", c2, l2.lines().last().unwrap_or("")), line); }
+    if c2 != 0 || !info_has(&l2, &["hash", "length"], "32") || !info_has(&l2, &["metadata", "blob"], "1600000") { st.violation("C11", &format!("bita info on an archive with a header over 1 MiB: exit {} {}", c2, l2.lines().last().unwrap_or("")), line); }
     let o = std::process::Command::new(bita_bin()).args(["info", "--metadata-key", "blob", "big.cba"]).current_dir(&s.dir).output();
     if !matches!(o, Ok(ref x) if x.status.success() && x.stdout == meta) { st.violation("C11", "the 1.6 MB metadata value is not reported back", line); }
     let (c3, _) = s.bita(&["clone", "big.cba", "out.bin"], None, &[]);
@@ -366,32 +366,31 @@ pub fn suite_clirt(dir: &str, seed: u64, thorough: bool, st: &mut Stats) {
         let (code5, log5) = s.bita(&["info", "out.cba"], None, &[]);
         if code5 != 0 { st.violation("C01", "bita info fails on a fresh archive", &replay); }
         // C11: what was requested is what the reader reports back
-        let human = |v: u64| -> String { if v > 1024 * 1024 { format!("{:.1} MiB ({} bytes)", v as f64 / 1048576.0, v) } else if v > 1024 { format!("{:.1} KiB ({} bytes)", v as f64 / 1024.0, v) } else { format!("{} bytes", v) } };
-        let mut want: Vec<String> = vec![
-            format!("Chunk hash length: {} bytes", c.hashlen),
-            format!("Source checksum: {}", hex(&b2(&c.src))),
-            format!("Source size: {}", human(c.src.len() as u64)),
-            format!("Archive size: {}", human(archive.len() as u64)),
-            format!("Chunking algorithm: {}", match c.cfg.algo { 'B' => "BuzHash", 'R' => "RollSum", _ => "Fixed Size" }),
+        let mut want: Vec<(Vec<&str>, String)> = vec![
+            (vec!["hash", "length"], format!("{}", c.hashlen)),
+            (vec!["source", "checksum"], hex(&b2(&c.src))),
+            (vec!["source", "size"], format!("{}", c.src.len())),
+            (vec!["archive", "size"], format!("{}", archive.len())),
+            (vec!["algorithm"], match c.cfg.algo { 'B' => "buzhash", 'R' => "rollsum", _ => "fixed" }.to_string()),
         ];
-        if c.cfg.algo == 'F' { want.push(format!("Fixed chunk size: {}", human(c.cfg.max as u64))); } else {
-            want.push(format!("Rolling hash window size: {}", human(c.cfg.win as u64)));
-            want.push(format!("Chunk minimum size: {}", human(c.cfg.min as u64)));
-            want.push(format!("Chunk maximum size: {}", human(c.cfg.max as u64)));
-            want.push(format!("Chunk average target size: {} (mask:", human(1u64 << (c.cfg.bits + 1))));
+        if c.cfg.algo == 'F' { want.push((vec!["fixed", "size"], format!("{}", c.cfg.max))); } else {
+            want.push((vec!["window"], format!("{}", c.cfg.win)));
+            want.push((vec!["min"], format!("{}", c.cfg.min)));
+            want.push((vec!["max"], format!("{}", c.cfg.max)));
+            want.push((vec!["target"], format!("{}", 1u64 << (c.cfg.bits + 1))));
         }
-        if c.comp.is_none() { want.push("Chunk compression: None".into()); }
-        if c.meta.is_empty() { want.push("Metadata: None".into()); } else {
-            want.push(format!("Metadata: {}", c.meta.iter().map(|(k, v)| format!("{}({})", k, v.len())).collect::<Vec<_>>().join(", ")));
+        if c.comp.is_none() { want.push((vec!["compression"], "none".into())); }
+        if c.meta.is_empty() { want.push((vec!["metadata"], "none".into())); } else {
+            for (k, v) in &c.meta { want.push((vec!["metadata"], format!("{}({})", k, v.len()))); }
         }
         st.oracle_checks += 1;
-        for w in &want {
-            if !log5.contains(w.as_str()) { st.violation("C11", &format!("bita info does not report `{}`", w), &replay); break; }
+        for (keys, val) in &want {
+            if !info_has(&log5, keys, val) { st.violation("C11", &format!("bita info does not report {:?} as `{}`", keys, val), &replay); break; }
         }
         if let Some((t, l)) = c.comp {
-            let line = log5.lines().find(|x| x.contains("Chunk compression:")).unwrap_or("").to_lowercase();
+            let line = log5.lines().find(|x| x.to_lowercase().contains("compression")).unwrap_or("").to_lowercase();
             let name = match t { 1 => "lzma", 2 => "zstd", _ => "brotli" };
-            if !line.contains(name) || !line.contains(&format!("{}", l)) { st.violation("C11", &format!("bita info reports the compression as `{}`, requested {} level {}", line.trim(), name, l), &replay); }
+            if !line.contains(name) || !line.split(|ch: char| !ch.is_ascii_digit()).any(|tk| tk == format!("{}", l)) { st.violation("C11", &format!("bita info reports the compression as `{}`, requested {} level {}", line.trim(), name, l), &replay); }
         }
         for (k, v) in &c.meta {
             let out = std::process::Command::new(bita_bin()).args(["info", "--metadata-key", k, "out.cba"]).current_dir(&s.dir).output();
@@ -399,6 +398,18 @@ pub fn suite_clirt(dir: &str, seed: u64, thorough: bool, st: &mut Stats) {
         }
     }, st, &mut out);
     out.finish();
+}
+
+/// `bita info` oracle, tolerant of wording: some line mentions all the key words (case-insensitive) and carries the value,
+/// a number as a whole decimal token (`64 bytes`, `1.5 MiB (1572864 bytes)`), anything else as a lower-case substring
+fn info_has(log: &str, keys: &[&str], value: &str) -> bool {
+    let num = !value.is_empty() && value.bytes().all(|b| b.is_ascii_digit());
+    log.lines().any(|l| {
+        let ll = l.to_lowercase();
+        keys.iter().all(|k| ll.contains(k)) && if num {
+            ll.split(|c: char| !c.is_ascii_digit()).any(|t| t == value)
+        } else { ll.contains(&value.to_lowercase()) }
+    })
 }
 
 // ---------------------------------------------------------------------------------------------
